@@ -380,3 +380,72 @@ func init() {
 	t2 := c13Params{pause: 0, senders: 4, perSender: 1, maxBusy: 2, waits: []int{0, 10, 100}, busyAtStart: true}
 	register("thorough", &h.Scenario{Name: "C13-pause0-4x1-busy2", Prop: "C13", P: 2, F: 2, D: 2, Run: c13Run(t2), Check: c13Oracle(t2)})
 }
+
+// c13CloseDuringBackoff: "transmission resumes afterwards: every Send eventually returns" also when
+// the application closes the router while a back-off is in force: a Send that was waiting out the
+// back-off, and a Send issued after Close, return (with whatever result) - none of them may hang on
+// a lock that the back-off still holds.
+func c13CloseDuringBackoff() func() {
+	return func() {
+		sock := fakesock.New("udp")
+		r, _ := knx.NewRouterOnSocket(sock, knx.RouterConfig{RetainCount: 4, PostSendPauseDuration: 5 * ms})
+		mc.GoEnv("reader", func() {
+			for {
+				if _, ok := r.Inbound().Recv2(); !ok {
+					return
+				}
+			}
+		})
+		send := func(i int) {
+			mc.Log(Call{"Send", i})
+			t0 := mc.Now()
+			err := r.Send(Msg(i))
+			mc.Log(Ret{"Send", i, errStr(err), t0})
+		}
+		send(0)
+		wait := []int{10, 40, 500}[mc.Choose(3, mc.Free)]
+		deliverBusy(sock, wait, uint16(mc.Choose(2, mc.Free)))
+		mc.Sleep(1 * ms)
+		mc.GoEnv("pending-sender", func() { send(1) })
+		closeAt := []mc.Duration{0, 2 * ms, 9 * ms, 30 * ms, 60 * ms}[mc.Choose(5, mc.Free)]
+		mc.Sleep(closeAt)
+		mc.Log(Call{"Close", 0})
+		r.Close()
+		mc.Log(Ret{"Close", 0, "", mc.Now()})
+		mc.Sleep(1 * ms)
+		mc.GoEnv("late-sender", func() { send(2) })
+		mc.Sleep(300 * ms)
+		mc.Log(Note("horizon"))
+	}
+}
+
+func c13CloseOracle(tr *mc.Trace) []h.Violation {
+	vs := generic(tr, "C13", true)
+	calls := map[int]mc.Duration{}
+	rets := map[int]bool{}
+	for _, e := range tr.Log {
+		switch x := e.V.(type) {
+		case Call:
+			if x.Call == "Send" {
+				calls[x.ID] = e.T
+			}
+		case Ret:
+			if x.Call == "Send" {
+				rets[x.ID] = true
+			}
+		}
+	}
+	if tr.Reason != "main-returned" {
+		return vs
+	}
+	for id, t := range calls {
+		if !rets[id] {
+			vs = append(vs, h.Violation{Class: "C13:send-never-returned", Msg: fmt.Sprintf("Send(%d), called at %v, had not returned 300 ms after the router was closed (busy indication before, Close during or after the back-off)", id, t)})
+		}
+	}
+	return vs
+}
+
+func init() {
+	register("both", &h.Scenario{Name: "C13-close-during-and-after-a-back-off", Prop: "C13", P: 1, F: 0, D: 1, Run: c13CloseDuringBackoff(), Check: c13CloseOracle})
+}
